@@ -423,6 +423,14 @@ fn main() {
                 inner.extend(std::iter::repeat(fill).take(n));
                 muts.push(abi_params(&[Tok::Word(word_u128(tag)), Tok::Dyn(chain.clone()), Tok::Dyn(inner)]));
             }
+            // ... and around an inner message cut short: every prefix up to three words (an inner
+            // message shorter than its own type word included), and every word boundary after that
+            let full = abi_msg(msg);
+            let mut cuts: Vec<usize> = (0..=96.min(full.len())).collect();
+            cuts.extend((128..full.len()).step_by(32));
+            for cut in cuts {
+                muts.push(abi_params(&[Tok::Word(word_u128(tag)), Tok::Dyn(chain.clone()), Tok::Dyn(full[..cut].to_vec())]));
+            }
         }
         if samples.len() < 3 {
             samples.push(serde_json::json!({"base_encoding_hex": hex(base), "example_deviation_hex": hex(&muts[muts.len() / 2]), "deviations_of_this_base": muts.len()}));
@@ -479,7 +487,7 @@ fn main() {
     let cov = serde_json::json!({
         "evaluations": st.evals.load(Ordering::Relaxed),
         "distinct_nontrivial": st.distinct.load(Ordering::Relaxed),
-        "rule": "encode side: the full product grid of hub messages (both wrappers x both inner kinds; chain names of 0/1/31/32/33 bytes, multi-byte, mixed case with surrounding blanks; ids 00.., ff.., pattern; address/data/minter lengths 0,1,31,32,33,64,65 and, for a few messages, 4000 / 4097 / 5000 / 70000 in every variable-length field; amounts 0,1,1000,2^64,2^127-1; names/symbols of 1 byte, 2- and 4-byte UTF-8 scalars, 31/32/33 bytes, a single blank, mixed case with surrounding blanks, a trailing NUL; decimals 0,1,18,255): abi_encode must equal the independent head/tail encoder byte for byte and decode back to the same message. Decode side: for a covering subset of 128 (quick) / 2048 (thorough) encodings every truncation, every single-bit flip, every 32-byte word replaced by each of ~30 boundary words and by each of the 256 words whose four 64-bit limbs are 0 / 1 / 2^63 / 2^64-1, pairs of word replacements, 8 kinds of trailing bytes, 4 kinds of trailing bytes on the inner message inside a canonical wrapper; all byte strings of length <= 2; all one-hot words; short type-tag-only inputs. Oracle: no panic, and Ok(m) implies both re-encoding m and the independent encoding of m reproduce the input exactly. A case is distinct when its byte string (or message) differs; all are non-trivial (each is a decode or encode compared with the reference)",
+        "rule": "encode side: the full product grid of hub messages (both wrappers x both inner kinds; chain names of 0/1/31/32/33 bytes, multi-byte, mixed case with surrounding blanks; ids 00.., ff.., pattern; address/data/minter lengths 0,1,31,32,33,64,65 and, for a few messages, 4000 / 4097 / 5000 / 70000 in every variable-length field; amounts 0,1,1000,2^64,2^127-1; names/symbols of 1 byte, 2- and 4-byte UTF-8 scalars, 31/32/33 bytes, a single blank, mixed case with surrounding blanks, a trailing NUL; decimals 0,1,18,255): abi_encode must equal the independent head/tail encoder byte for byte and decode back to the same message. Decode side: for a covering subset of 128 (quick) / 2048 (thorough) encodings every truncation, every single-bit flip, every 32-byte word replaced by each of ~30 boundary words and by each of the 256 words whose four 64-bit limbs are 0 / 1 / 2^63 / 2^64-1, pairs of word replacements, 8 kinds of trailing bytes, 4 kinds of trailing bytes on the inner message inside a canonical wrapper, and the inner message cut at every length up to 96 bytes and at every later word boundary inside a canonical wrapper; all byte strings of length <= 2; all one-hot words; short type-tag-only inputs. Oracle: no panic, and Ok(m) implies both re-encoding m and the independent encoding of m reproduce the input exactly. A case is distinct when its byte string (or message) differs; all are non-trivial (each is a decode or encode compared with the reference)",
         "samples": samples,
         "exhaustive": fail.is_none(),
         "grid_messages": n_grid,
